@@ -297,6 +297,7 @@ func stepUntilBlocked(ctl *sched.Controller, name string, max int) (string, []st
 
 func c19race(seed uint64, which []string) {
 	if len(which) == 0 || which[0] == "all" {
+		// ("opn-after-open-gave-up" is run in a process of its own: before fix 069bea7 it killed the process)
 		which = []string{"pop-timer-deliver", "pop-deliver-timer", "opn-timeout-race", "unsolicited-opn"}
 	}
 	for i, w := range which {
@@ -318,8 +319,59 @@ func c19race(seed uint64, which []string) {
 	}
 }
 
+// c19opnLate: on a signed channel the response to a renewal is held inside readChunk, after the dispatcher has
+// looked at openingInstance, until the renewal has timed out and open() has reset the field; then it goes on.
+// Before fix 069bea7 the client died there with a nil pointer dereference.
+func c19opnLate(name string) error {
+	cs, err := selfSigned("client")
+	if err != nil {
+		return err
+	}
+	ss, err := selfSigned("server")
+	if err != nil {
+		return err
+	}
+	cs.Policy, cs.Mode = ua.SecurityPolicyURIBasic256Sha256, ua.MessageSecurityModeSign
+	p, err := NewPair(PairOpts{Timeout: 150 * time.Millisecond, Sec: cs, SrvSec: ss})
+	if err != nil {
+		return err
+	}
+	defer p.Close()
+	ctl := sched.New()
+	ctl.BindID(p.Srv.goid, "server") // the server's Receive goroutine passes the same points; leave it alone
+	uasc.VerifSetSchedHook(ctl.Hook)
+	defer uasc.VerifSetSchedHook(nil)
+	defer ctl.FreeAll()
+	ctl.Control("recv")
+	done := make(chan error, 1)
+	t0 := time.Now()
+	go func() { done <- p.SC.Renew(context.Background()) }()
+	if ctl.WaitParked("recv", "sc.recv.openingChecked", 3*time.Second) == "" {
+		return fmt.Errorf("dispatcher did not reach sc.recv.openingChecked with the OPN response")
+	}
+	var rerr error
+	select {
+	case rerr = <-done:
+	case <-time.After(3 * time.Second):
+		return fmt.Errorf("Renew did not return")
+	}
+	renewMS := float64(time.Since(t0).Microseconds()) / 1000
+	ctl.Free("recv") // the dispatcher goes on with the response nobody waits for any more
+	time.Sleep(50 * time.Millisecond)
+	res := "ok"
+	if rerr != nil {
+		res = rerr.Error()
+	}
+	emit(map[string]interface{}{"kind": "survived", "prop": "C19", "scenario": name, "renew_result": res, "renew_elapsed_ms": renewMS,
+		"note": "the client process is alive after the late OpenSecureChannelResponse went through readChunk"})
+	return nil
+}
+
 func c19raceOne(r *rng.R, name, which string) error {
 	stallReset()
+	if which == "opn-after-open-gave-up" {
+		return c19opnLate(name)
+	}
 	reqTimeout := 10 * time.Second
 	if which == "opn-timeout-race" {
 		reqTimeout = 60 * time.Millisecond
